@@ -320,11 +320,12 @@ package node
 //@   ensures[standing] n.standing()
 //@   call processSigPool assume[separate-blocks] hg.StoredBlocksSeparate(n.core.hg.Store)
 
-// Init without the bootstrap option (a fresh or in-memory store) keeps the standing invariants that NewNode
-// established; with bootstrap, Hashgraph.Bootstrap replays the database and is outside.
+// Init keeps the standing invariants that NewNode established, with or without the bootstrap option (with it,
+// Hashgraph.Bootstrap replays the database through the normal consensus path: used through its contract, whose
+// panic-freedom is not claimed).
 //@ func (n *Node) Init() error
 //@   safety on
-//@   requires n.standing() && !n.conf.Bootstrap && n.trans != nil
+//@   requires n.standing() && n.trans != nil
 //@   ensures[standing] n.standing()
 
 //@ func (n *Node) Suspend()
